@@ -175,9 +175,9 @@ def run_mount(ctx, table, root, path, apps=None):
     return nt
 
 
-HOST_PATTERNS = [r"example\.com", r"(www\.)?example\.com", r".*\.example\.com", r"api\.example\.com", r"example", r".*", r"",
+HOST_PATTERNS = [r"example\.com:80", r"example\.com:443", r"example\.com", r"(www\.)?example\.com", r".*\.example\.com", r"api\.example\.com", r"example", r".*", r"",
                  r"[a-z]+\.com", r"example\.com(:\d+)?", r"EXAMPLE\.COM", r"ex", r"com", r"e.*m", r"^example\.com$", r"static\..*"]
-HOSTS = ["example.com", "www.example.com", "API.example.com", "Example.Com", "api.example.com", "xexample.com", "example.comx", "example.com:8000", "", None, "EXAMPLE.COM",
+HOSTS = ["example.com:80", "example.com:443", "example.com", "www.example.com", "API.example.com", "Example.Com", "api.example.com", "xexample.com", "example.comx", "example.com:8000", "", None, "EXAMPLE.COM",
          "example", "static.example.com", "a.b.example.com", "example.com ", " example.com", "ex", "com", "api.example.com.evil.org"]
 
 
